@@ -1311,15 +1311,15 @@ def run_session(which):
 
 
 def judge_session(ctx, r):
-    seen = {}
+    seen, reported = {}, False
     for k, n, o in r["enc"]:
-        if (k, n) in seen and seen[(k, n)] != o:
+        if (k, n) in seen and seen[(k, n)] != o and not reported:
+            reported = True
             a, b = r["labels"][seen[(k, n)]], r["labels"][o]
             ctx.violation("C07:session:nonce-reuse-across-channels",
                           "two cipher objects of one %s session encrypt under the same key with the same nonce %s: keys derived with %s and %s"
                           % (r["which"], n.hex(), a, b),
                           {"kind": "session", "which": r["which"], "channels": [a, b], "nonce": n.hex(), "derivations": r["derivations"]})
-            break
         seen.setdefault((k, n), o)
     for k, n in r["peer_enc"]:
         if (k, n) in seen:
